@@ -243,6 +243,33 @@ def special_inputs(chk):
             continue
         if r.units != q.units or not (repr(r.magnitude) == repr(q.magnitude)):
             chk.diverge({"clause": "compact-special-changed", "magnitude": repr(m)}, {"unit": un, "result": repr((r.magnitude, str(r.units)))})
+    # every real numeric type is compacted alike
+    for T, mk in (("Decimal", lambda v: Decimal(v)), ("Fraction", lambda v: F(v)), ("int", lambda v: int(float(v))), ("float", float), ("numpy.float64", lambda v: __import__("numpy").float64(v))):
+        for v, un in (("1.5E+7", "meter"), ("2500", "kilometer"), ("0.0005", "second"), ("123456789", "gram")):
+            if T == "int" and float(v) < 1:
+                continue
+            chk.case(("typed-compact", T, v, un))
+            try:
+                r = ureg.Quantity(mk(v), un).to_compact()
+            except Exception as e:
+                chk.diverge({"clause": "compact-special-raises", "exc": type(e).__name__, "magnitude": T}, {"magnitude": v, "unit": un})
+                continue
+            if not (1 <= abs(float(r.magnitude)) < 1000) or abs(float(r.to(un).magnitude) - float(v)) > 1e-9 * float(v):
+                chk.diverge({"clause": "compact-range", "magnitude": T}, {"input": v, "unit": un, "result": repr((r.magnitude, str(r.units)))})
+    # logarithmic units: the in-place forms equal the functional ones for plain numbers as for arrays
+    for un, dst in (("dBm", "milliwatt"), ("dB", "dimensionless"), ("octave", "dimensionless"), ("neper", "dimensionless")):
+        for form in ("ito", "ito_root_units", "ito_base_units"):
+            chk.case(("log-inplace", un, form))
+            q = ureg.Quantity(20.0, un)
+            try:
+                want = q.to(dst) if form == "ito" else (q.to_root_units() if form == "ito_root_units" else q.to_base_units())
+                twin = ureg.Quantity(20.0, un)
+                twin.ito(dst) if form == "ito" else getattr(twin, form)()
+            except Exception as e:
+                chk.diverge({"clause": "in-place-differs", "helper": form, "exc": type(e).__name__, "unit": "logarithmic"}, {"unit": un, "error": repr(e)[:200]})
+                continue
+            if twin.units != want.units or abs(float(twin.magnitude) - float(want.magnitude)) > 1e-9 * max(1.0, abs(float(want.magnitude))):
+                chk.diverge({"clause": "in-place-differs", "helper": form, "unit": "logarithmic"}, {"unit": un, "functional": str(want), "in_place": str(twin)})
     # uncertain magnitudes: the nominal value decides the prefix
     for m, un in ((ufloat(2500.0, 1.0), "kilometer"), (ufloat(0.0025, 0.0001), "millisecond"), (ufloat(2.5e7, 1.0), "gram")):
         chk.case(("ufloat-compact", repr(m), un))
